@@ -19,6 +19,7 @@ import (
 type zzConn struct {
 	netmc.MinecraftConn
 	ctx       context.Context
+	cancel    context.CancelFunc
 	protocol  proto.Protocol
 	st        *state.Registry
 	log       []zzOp // everything done to the connection, in order
@@ -27,6 +28,7 @@ type zzConn struct {
 	handler   netmc.SessionHandler
 	threshold int
 	secret    []byte
+	onClose   func() // run once on the first Close (the real connection's read loop tears the session down)
 }
 
 type zzOp struct {
@@ -56,6 +58,14 @@ func (c *zzConn) SetOutboundState(s *state.Registry) {
 func (c *zzConn) Close() error {
 	c.closed++
 	c.log = append(c.log, zzOp{kind: "close"})
+	if c.closed == 1 {
+		if c.cancel != nil {
+			c.cancel()
+		}
+		if c.onClose != nil {
+			c.onClose()
+		}
+	}
 	return nil
 }
 func (c *zzConn) WritePacket(p proto.Packet) error {
